@@ -781,7 +781,7 @@ pub fn mutate_lin<S: Lin>(
         if cols_touched[k] {
             continue;
         }
-        let t = lincode::expected_t::<Fr>(S::sec_param(&sess.keys.ck), S::distance(&sess.keys.ck), n_ext);
+        let t = lincode::expected_t::<Fr>(S::sec_param(&sess.keys.ck), S::dist(&sess.keys.ck), n_ext);
         let Some(t) = t else { continue };
         let ck = &sess.keys.ck;
         if v_changed[k] && ps[k].opening.v.len() == n_cols {
